@@ -11,6 +11,48 @@ use serde::{Deserialize, Serialize};
 use serde_json::Number;
 use thiserror::Error;
 
+///
+/// decode the escape sequences that the grammars accept in a string literal:
+/// \\" \\\\ \\/ \\b \\f \\n \\r \\t and \\uXXXX
+///
+pub fn unescape_literal(literal: &str) -> String {
+    let mut result = String::with_capacity(literal.len());
+    let mut chars = literal.chars();
+    while let Some(c) = chars.next() {
+        if c != '\\' {
+            result.push(c);
+            continue;
+        }
+        match chars.next() {
+            Some('"') => result.push('"'),
+            Some('\\') => result.push('\\'),
+            Some('/') => result.push('/'),
+            Some('b') => result.push('\u{8}'),
+            Some('f') => result.push('\u{c}'),
+            Some('n') => result.push('\n'),
+            Some('r') => result.push('\r'),
+            Some('t') => result.push('\t'),
+            Some('u') => {
+                let hex: String = chars.by_ref().take(4).collect();
+                match u32::from_str_radix(&hex, 16).ok().and_then(char::from_u32) {
+                    Some(decoded) => result.push(decoded),
+                    None => {
+                        //surrogates cannot be represented alone: kept as written
+                        result.push_str("\\u");
+                        result.push_str(&hex);
+                    }
+                }
+            }
+            Some(other) => {
+                result.push('\\');
+                result.push(other);
+            }
+            None => result.push('\\'),
+        }
+    }
+    result
+}
+
 #[derive(Debug, Clone)]
 pub enum FieldValue {
     Variable(String),
